@@ -7,7 +7,7 @@ from collections.abc import Mapping
 import gen
 import witnesses as W
 from engine import Check, Violation
-from pool import Fault
+from pool import Fault, HardFault
 from props_struct import all_ops
 from edgegraph.structure import Vertex, Universe, DirectedEdge, UnDirectedEdge
 from edgegraph.traversal import helpers, breadthfirst, depthfirst
@@ -274,7 +274,7 @@ class C13(Check):
             def __call__(self, *a):
                 self.count += 1
                 if self.fault_at is not None and self.count == self.fault_at:
-                    raise Fault()
+                    raise (HardFault if self.fault_at % 3 == 2 else Fault)()
                 return self.fn(*a)
 
         vs = [real.V[int(v[1:])] for v in p.verts()]
